@@ -4,22 +4,30 @@
 // L, pi of GOST R 34.12-2015 as in bcref::kuznyechik).
 //
 // A 64 KiB constant table indexed symbolically is intractable for CBMC (every read costs 65536 implications), so the
-// contents are checked with concrete loops (kind=exhaustive) against reference tables LS / SLINV which rustc
-// const-evaluates from the reference functions, and the reference tables are tied back to the reference functions
-// symbolically, one 256-entry slice at a time (c_ls_table, c_slinv_table).
+// contents are compared with concrete loops (kind=exhaustive) with reference tables LS / SLINV built by rustc's const
+// evaluator, and the reference tables are tied to the reference functions L, pi symbolically, one 256-entry slice at a
+// time (c_ls_table, c_slinv_table).
 //
 // @module file=kuznyechik/src/fused_tables.rs
 use super::*;
 use bcref::kuznyechik as kz;
 
+/// Reference tables.  How they are filled is irrelevant (here: L(unit_i(1)) scaled by pi(j) in the field, which is cheap
+/// for rustc's const evaluator): c_ls_table / c_slinv_table below prove, for every i and every byte value, that
+/// LS[i][j] = L(unit_i(pi(j))) and SLINV[i][j] = L^-1(unit_i(pi^-1(j))) as computed by the reference functions.
 #[allow(long_running_const_eval)]
 pub static LS: [[[u8; 16]; 256]; 16] = {
     let mut t = [[[0u8; 16]; 256]; 16];
     let mut i = 0;
     while i < 16 {
+        let col = kz::l(&kz::unit(i, 1));
         let mut j = 0;
         while j < 256 {
-            t[i][j] = kz::l(&kz::unit(i, kz::PI[j]));
+            let mut k = 0;
+            while k < 16 {
+                t[i][j][k] = kz::gf_mul(kz::PI[j], col[k]);
+                k += 1;
+            }
             j += 1;
         }
         i += 1;
@@ -31,9 +39,14 @@ pub static SLINV: [[[u8; 16]; 256]; 16] = {
     let mut t = [[[0u8; 16]; 256]; 16];
     let mut i = 0;
     while i < 16 {
+        let col = kz::l_inv(&kz::unit(i, 1));
         let mut j = 0;
         while j < 256 {
-            t[i][j] = kz::l_inv(&kz::unit(i, kz::PI_INV[j]));
+            let mut k = 0;
+            while k < 16 {
+                t[i][j][k] = kz::gf_mul(kz::PI_INV[j], col[k]);
+                k += 1;
+            }
             j += 1;
         }
         i += 1;
